@@ -316,3 +316,23 @@ Example C08_example_chunks :
   run inp [0%nat] = ([ {| v_start := Some 0; v_calls := [(0, 3); (3, 3); (6, 1)]; v_done := Some 20; v_verdict := VOk |} ], [(true, 20)])
   /\ clean_input inp = true.
 Proof. vm_compute. repeat split. Qed.
+
+(* A tolerated rejection does not end the node's other chunks: 4 items at concurrency 2, the first
+   chunk is rejected as already known at 10 ms, the second accepted at 30 ms: the node counts as
+   accepting at 30 ms, having been left to answer both requests.  The check's predicate accepts that
+   observation, and condemns the same submission when the second request was abandoned at 10 ms
+   (reported as a failure at the timeout) or when it merely was abandoned, whatever was reported. *)
+Example C08_example_tolerated_chunk_then_accept :
+  let inp := {| i_kind := KAttestations; i_len := 4; i_conc := 2; i_timeout := 200;
+                i_nodes := [ {| n_client := Lighthouse; n_default := BReply 30 RAccept;
+                                n_over := [ (0, BReply 10 (RError {| e_shape := ShFailures; e_entries := [Some PhPriorAtt] |})) ] |} ] |} in
+  let calls := [[(0, [0; 1]); (0, [2; 3])]] in
+  let seen ok ret cut := {| c_id := 0; c_body := CSubmit inp [0%nat]
+        {| o_panic := false; o_success := ok; o_ret := ret; o_nodes := calls; o_cut := [cut] |} |} in
+  run inp [0%nat] = ([ {| v_start := Some 0; v_calls := [(0, 2); (2, 2)]; v_done := Some 30; v_verdict := VOk |} ], [(true, 30)])
+  /\ clean_input inp = true
+  /\ agree (seen true 30 []) = true /\ P_b (seen true 30 []) = true
+  /\ P_b (seen false 200 [(10, false)]) = false
+  /\ P_b (seen true 30 [(10, false)]) = false /\ agree (seen true 30 [(10, false)]) = false
+  /\ P_b (seen true 30 [(10, true)]) = true /\ P_b (seen true 30 [(200, false)]) = true.
+Proof. vm_compute. repeat split. Qed.
